@@ -612,6 +612,254 @@ fn toy_history(
     None
 }
 
+
+//============ toy write-ahead-log history ====================================
+
+mod waltoy {
+    use std::fmt;
+    use krill::commons::eventsourcing::{
+        WalChange, WalCommand, WalSet, WalStoreError, WalSupport,
+    };
+    use rpki::ca::idexchange::MyHandle;
+    use serde::{Deserialize, Serialize};
+
+    #[derive(Clone, Debug, Deserialize, Eq, PartialEq, Serialize)]
+    pub struct WLog { pub revision: u64, pub items: Vec<u64> }
+
+    #[derive(Clone, Debug)]
+    pub enum WKind { Append(u64), Reject(u64), Noop }
+
+    #[derive(Clone, Debug)]
+    pub struct WCmd { pub handle: MyHandle, pub kind: WKind }
+    impl fmt::Display for WCmd {
+        fn fmt(&self, f: &mut fmt::Formatter) -> fmt::Result {
+            write!(f, "{:?}", self.kind)
+        }
+    }
+    impl WalCommand for WCmd {
+        fn handle(&self) -> &MyHandle { &self.handle }
+    }
+
+    #[derive(Clone, Debug, Deserialize, Eq, PartialEq, Serialize)]
+    pub struct Pushed(pub u64);
+    impl fmt::Display for Pushed {
+        fn fmt(&self, f: &mut fmt::Formatter) -> fmt::Result {
+            write!(f, "pushed {}", self.0)
+        }
+    }
+    impl WalChange for Pushed {}
+
+    #[derive(Debug)]
+    pub struct WErr(pub String);
+    impl fmt::Display for WErr {
+        fn fmt(&self, f: &mut fmt::Formatter) -> fmt::Result { f.write_str(&self.0) }
+    }
+    impl std::error::Error for WErr {}
+    impl From<WalStoreError> for WErr {
+        fn from(e: WalStoreError) -> Self { WErr(format!("store: {e}")) }
+    }
+
+    impl WalSupport for WLog {
+        type Command = WCmd;
+        type Change = Pushed;
+        type Error = WErr;
+        fn revision(&self) -> u64 { self.revision }
+        fn apply(&mut self, set: WalSet<Self>) {
+            for Pushed(v) in set.into_changes() { self.items.push(v) }
+            self.revision += 1;
+        }
+        fn process_command(&self, c: WCmd) -> Result<Vec<Pushed>, WErr> {
+            match c.kind {
+                WKind::Append(i) => Ok(vec![Pushed(i)]),
+                WKind::Reject(i) => Err(WErr(format!("rejected {i}"))),
+                WKind::Noop => Ok(vec![]),
+            }
+        }
+    }
+}
+
+/// The write-ahead-log store (the publication server's content log uses it)
+/// with a toy entity: every accepted command is one change set and takes
+/// exactly one revision, commands without effect and rejected ones take none
+/// and leave nothing behind, every returned state is a prefix of the final
+/// order, and an instance opened afresh on the storage (a restart, the
+/// snapshot job) reads back the same state and can continue from it.
+fn wal_history(
+    r: &mut Report, args: &Args, case: u64, rng: &mut Rng,
+) -> Option<(String, String, Value)> {
+    use krill::commons::eventsourcing::WalStore;
+    use waltoy::{WCmd, WKind, WLog};
+    let memory = rng.chance(1, 2);
+    let threads = rng.range(1, 6) as usize;
+    let per_thread = rng.range(3, 10) as usize;
+    let two_stores = rng.chance(1, 2);
+    YIELD_SEED.store(rng.next(), Ordering::Relaxed);
+    YIELD_HOT.store(case % 2, Ordering::Relaxed);
+    let dir = args.work.join(format!("wal{case}"));
+    let _ = std::fs::remove_dir_all(&dir);
+    let storage = Arc::new(if memory {
+        StorageSystem::new_memory(Some(case ^ args.shard_seed() ^ 0x77))
+    } else {
+        std::fs::create_dir_all(&dir).unwrap();
+        StorageSystem::new_disk(dir.clone())
+    });
+    let ns = Ident::from_str("toywal").unwrap();
+    let store_a = Arc::new(WalStore::<WLog>::create(&storage, ns).expect("wal"));
+    let store_b = if two_stores {
+        Arc::new(WalStore::<WLog>::create(&storage, ns).expect("wal b"))
+    } else { store_a.clone() };
+    let hdl = MyHandle::from_str("w0").unwrap();
+    store_a.add(&hdl, WLog { revision: 0, items: vec![] }).expect("add");
+    let desc = json!({"memory": memory, "threads": threads,
+        "per_thread": per_thread, "two_stores": two_stores});
+    kvh::util::mark_inflight(&args.out, &json!({
+        "what": "wal toy history", "desc": desc, "exit_is_violation": true,
+        "signature": "process-exit:wal-change-set-already-exists"
+    }));
+
+    #[derive(Clone, Debug, Serialize)]
+    struct WRec { thread: usize, kind: &'static str, id: u64, ok: bool,
+                  revision: Option<u64>, items: Option<Vec<u64>>,
+                  err: Option<String> }
+    let recs: Arc<Mutex<Vec<WRec>>> = Arc::new(Mutex::new(vec![]));
+    let next_id = Arc::new(AtomicU64::new(1));
+    let mut joins = vec![];
+    // krill's division of labour: ONE store instance takes the commands
+    // (the publication server's), a second one over the same storage only
+    // writes snapshots (the scheduler's snapshot job) - a snapshot removes
+    // the change sets, so two command-taking instances are not supported
+    for t in 0..threads {
+        let store = store_a.clone();
+        let snap_store = store_b.clone();
+        let (hdl, recs, next_id) = (hdl.clone(), recs.clone(), next_id.clone());
+        let mut trng = Rng::new(rng.next());
+        joins.push(std::thread::spawn(move || {
+            TL_ID.with(|x| x.set(t as u64 + 1));
+            for _ in 0..per_thread {
+                let id = next_id.fetch_add(1, Ordering::SeqCst);
+                let choice = trng.weighted(&[45, 12, 18, 15, 10]);
+                let (kind, res) = match choice {
+                    0 => ("append", store.send_command(WCmd {
+                        handle: hdl.clone(), kind: WKind::Append(id) })),
+                    1 => ("reject", store.send_command(WCmd {
+                        handle: hdl.clone(), kind: WKind::Reject(id) })),
+                    2 => ("noop", store.send_command(WCmd {
+                        handle: hdl.clone(), kind: WKind::Noop })),
+                    3 => ("read", store.get_latest(&hdl)),
+                    _ => ("snapshot", snap_store.update_snapshot(&hdl)),
+                };
+                let rec = match res {
+                    Ok(a) => WRec { thread: t, kind, id, ok: true,
+                        revision: Some(a.revision),
+                        items: Some(a.items.clone()), err: None },
+                    Err(e) => WRec { thread: t, kind, id, ok: false,
+                        revision: None, items: None, err: Some(e.to_string()) },
+                };
+                recs.lock().unwrap().push(rec);
+            }
+        }));
+    }
+    let mut panicked = false;
+    for j in joins { if j.join().is_err() { panicked = true } }
+    let recs = recs.lock().unwrap().clone();
+    let wit = |x: Value| json!({"desc": desc, "records": recs.iter().take(80)
+        .collect::<Vec<_>>(), "extra": x});
+    if panicked {
+        return Some(("wal:panic-in-store".into(),
+            "a worker thread panicked inside the WAL store".into(), wit(json!({}))))
+    }
+    let live = match store_a.get_latest(&hdl) {
+        Ok(a) => a,
+        Err(e) => return Some(("wal:final-read-failed".into(), e.to_string(),
+                               wit(json!({})))),
+    };
+    let fin = &live.items;
+    r.eval();
+    let mut appended = 0u64;
+    for x in &recs {
+        r.count("wal_records_checked", 1);
+        match (x.kind, x.ok) {
+            ("append", true) => {
+                appended += 1;
+                let n = fin.iter().filter(|i| **i == x.id).count();
+                if n != 1 {
+                    return Some((if n == 0 { "wal:acknowledged-command-lost" }
+                        else { "wal:command-applied-twice" }.into(),
+                        format!("id {} occurs {n} times in {fin:?}", x.id),
+                        wit(json!({"record": x}))))
+                }
+                if x.items.as_ref().unwrap().last() != Some(&x.id) {
+                    return Some(("wal:ack-state-not-after-own-command".into(),
+                        format!("ack of {} returned {:?}", x.id, x.items),
+                        wit(json!({"record": x}))))
+                }
+            }
+            ("append", false) | ("noop", false) | ("read", false)
+            | ("snapshot", false) => {
+                return Some((format!("wal:{}-failed", x.kind),
+                    format!("{:?}", x.err), wit(json!({"record": x}))))
+            }
+            ("reject", true) => return Some((
+                "wal:failing-command-acknowledged".into(),
+                format!("reject {}", x.id), wit(json!({"record": x})))),
+            _ => {}
+        }
+        if let (Some(items), Some(rev)) = (&x.items, x.revision) {
+            if items.len() > fin.len() || fin[..items.len()] != items[..] {
+                return Some(("wal:state-not-a-prefix-of-final-order".into(),
+                    format!("{} by thread {} saw {items:?}, final {fin:?}",
+                            x.kind, x.thread), wit(json!({"record": x}))))
+            }
+            // one revision per accepted change set, none for anything else
+            if rev != items.len() as u64 {
+                return Some(("wal:revision-not-one-per-accepted-command".into(),
+                    format!("{} by thread {} returned revision {rev} with {} \
+                             accepted changes {items:?}", x.kind, x.thread,
+                            items.len()), wit(json!({"record": x}))))
+            }
+        }
+    }
+    if fin.len() as u64 != appended || live.revision != appended {
+        return Some(("wal:version-count-mismatch".into(),
+            format!("final revision {} with {} items, {appended} acknowledged",
+                    live.revision, fin.len()), wit(json!({}))))
+    }
+    // a fresh instance (restart, snapshot job) reads the same and continues
+    let fresh = WalStore::<WLog>::create(&storage, ns).expect("fresh wal");
+    match fresh.get_latest(&hdl) {
+        Ok(f) if *f == *live => {}
+        Ok(f) => return Some(("wal:live-state-differs-from-stored".into(),
+            format!("live r{} {:?} vs re-read r{} {:?}", live.revision, fin,
+                    f.revision, f.items), wit(json!({})))),
+        Err(e) => return Some(("wal:stored-state-does-not-load".into(),
+            e.to_string(), wit(json!({})))),
+    }
+    if let Ok(b) = store_b.get_latest(&hdl) {
+        if *b != *live {
+            return Some(("wal:second-instance-diverges".into(),
+                format!("{:?} vs {:?}", b.items, fin), wit(json!({}))))
+        }
+    }
+    let extra = next_id.fetch_add(1, Ordering::SeqCst);
+    match fresh.send_command(WCmd { handle: hdl.clone(),
+                                    kind: WKind::Append(extra) }) {
+        Ok(a) if a.revision == live.revision + 1
+            && a.items.len() == fin.len() + 1
+            && a.items[..fin.len()] == fin[..] => {}
+        Ok(a) => return Some(("wal:cannot-continue-after-reopen".into(),
+            format!("after re-opening, an append gave r{} {:?} (was r{} {fin:?})",
+                    a.revision, a.items, live.revision), wit(json!({})))),
+        Err(e) => return Some(("wal:cannot-continue-after-reopen".into(),
+            e.to_string(), wit(json!({})))),
+    }
+    r.count("wal_histories", 1);
+    r.nontrivial(format!("wal:{memory}/{two_stores}/{threads}/{}",
+        recs.iter().map(|x| x.kind.as_bytes()[0] as char).collect::<String>()));
+    drop(fresh);
+    let _ = std::fs::remove_dir_all(&dir);
+    None
+}
+
 //============ real CertAuth + publication WAL ================================
 
 fn real_history(
@@ -1037,6 +1285,12 @@ fn main() {
             case += 1;
             if let Some((s, d, w)) = toy_history(&mut r, &args, case, &mut rng) {
                 r.violation(&s, &d, w);
+            }
+            if case % 3 == 0 {
+                case += 1;
+                if let Some((s, d, w)) = wal_history(&mut r, &args, case, &mut rng) {
+                    r.violation(&s, &d, w);
+                }
             }
             if !r.within_budget() { break }
         }
